@@ -172,6 +172,15 @@ impl DualConnector {
                 "The dual connector requires at least 8 feature templates.",
             ));
         }
+        // Ids of the pre-summed matrix are 16-bit, like connection ids.
+        if right_feat_ids_tmp.len() > usize::from(u16::MAX)
+            || left_feat_ids_tmp.len() > usize::from(u16::MAX)
+        {
+            return Err(VibratoError::invalid_argument(
+                "dual_connector",
+                "The dual connector supports at most 65535 connection ids on each side.",
+            ));
+        }
         let scorer = scorer_builder.build();
 
         // Split features into RawConnector and MatrixConnector
